@@ -80,33 +80,69 @@ def run(ctx):
     if bk:
         ms = [n for n in sx.walk(bk.item['body']) if n.get('k') == 'match']
         k2.exactly('begin_keywords_match', len(ms), 1)
+        where_bk = '%s/%s:%d' % (g.crate, bk.file, bk.line)
+        value_form = False
         for m in ms:
             for arm in m['arms']:
                 lit = sx.lit_str(arm['pat'].get('e')) if arm['pat'].get('k') == 'lit' else None
                 if lit is None:
                     if arm['pat'].get('k') == 'wild':
-                        # default arm must do nothing
-                        if sx.render(arm['body']).strip() not in ('()',):
+                        # default arm must do nothing (no push)
+                        if any(n.get('k') == 'mcall' and n['m'] == 'push' for n in sx.walk(arm['body'])) or \
+                                any(n.get('k') == 'path' and n['p'].startswith('Version::') for n in sx.walk(arm['body'])):
                             k2.fail('%s:begin_keywords:default-arm' % g.crate, '%s/%s:%s' % (g.crate, bk.file, arm['l']),
-                                    'begin_keywords: the catch-all arm must not push a version (found %s)' % sx.render(arm['body'])[:60])
+                                    'begin_keywords: the catch-all arm must not select a version (found %s)' % sx.render(arm['body'])[:60])
                     continue
                 vs = [n['p'] for n in sx.walk(arm['body']) if n.get('k') == 'path' and n['p'].startswith('Version::')]
                 pushes = [n for n in sx.walk(arm['body']) if n.get('k') == 'mcall' and n['m'] == 'push']
-                k2.inst('begin:%s' % lit, {'specifier': lit, 'pushes': vs})
-                if len(vs) != 1 or len(pushes) != 1:
+                k2.inst('begin:%s' % lit, {'specifier': lit, 'selects': vs})
+                if len(vs) != 1 or len(pushes) > 1:
                     k2.fail('%s:begin_keywords:arm:%s' % (g.crate, lit), '%s/%s:%s' % (g.crate, bk.file, arm['l']),
-                            'begin_keywords("%s") must push exactly one Version (found %s)' % (lit, vs))
+                            'begin_keywords("%s") must select exactly one Version (found %s)' % (lit, vs))
                     continue
+                if not pushes:
+                    value_form = True
                 v = vs[0].split('::')[1]
                 pushed[lit] = v
                 okname = norm(v) == norm('ieee' + lit) or (lit == 'directive' and v == 'Directive')
                 if not okname:
                     k2.fail('%s:begin_keywords:wrong-version:%s' % (g.crate, lit), '%s/%s:%s' % (g.crate, bk.file, arm['l']),
-                            'begin_keywords("%s") pushes Version::%s' % (lit, v))
+                            'begin_keywords("%s") selects Version::%s' % (lit, v))
         for sp in list(oracle['sets']) + ['directive']:
             if sp not in pushed:
-                k2.fail('%s:begin_keywords:missing:%s' % (g.crate, sp), '%s/%s:%d' % (g.crate, bk.file, bk.line),
+                k2.fail('%s:begin_keywords:missing:%s' % (g.crate, sp), where_bk,
                         'begin_keywords has no arm for "%s": the directive would silently keep the previous keyword set' % sp)
+        # the selected version is pushed exactly once, unconditionally
+        all_pushes = [n for n in sx.walk(bk.item['body']) if n.get('k') == 'mcall' and n['m'] == 'push']
+        cond_push = []
+
+        def under_if(node, target, inside=False):
+            if node is target:
+                return inside
+            if isinstance(node, dict):
+                for k_, v_ in node.items():
+                    if k_ in ('l', 'col', 'el'):
+                        continue
+                    ins = inside or (node.get('k') == 'if' and k_ in ('t', 'e'))
+                    r_ = under_if(v_, target, ins)
+                    if r_ is not None:
+                        return r_
+            elif isinstance(node, list):
+                for x in node:
+                    r_ = under_if(x, target, inside)
+                    if r_ is not None:
+                        return r_
+            return None
+        for pcall in all_pushes:
+            if under_if(bk.item['body'], pcall):
+                cond_push.append(pcall)
+        k2.inst('push-unconditional', {'pushes': len(all_pushes), 'conditional': len(cond_push), 'value_form': value_form})
+        if cond_push:
+            k2.fail('%s:begin_keywords:conditional-push' % g.crate, '%s/%s:%s' % (g.crate, bk.file, cond_push[0].get('l')),
+                    'begin_keywords pushes the selected version only under a condition (%s): a `begin_keywords region can then be opened '
+                    'without a stack entry while `end_keywords always pops, so the region below is closed instead' % sx.render(cond_push[0])[:60])
+        if value_form and len(all_pushes) != 1:
+            k2.fail('%s:begin_keywords:push-count' % g.crate, where_bk, 'begin_keywords selects a version by value but pushes it %d times' % len(all_pushes))
     if ik:
         ms = [n for n in sx.walk(ik.item['body']) if n.get('k') == 'match']
         k2.exactly('is_keyword_match', len(ms), 1)
